@@ -556,6 +556,9 @@ def check(ctx):
         _rt19(ctx.borrowed("R11", "C04", only=("R2",), key_prefix="GeckoStatusBlockProtocolHandler"), repo)
     except AnalysisError as e:
         ctx.error(f"R11 (C04.R2 borrowed): {e}")      # reported, and the rules below still run
+    ctx.rule("R12", "each snapshot assembles its own block: no class of the tools keeps per-snapshot data (the list of received segments) in a class-level container its methods fill through `self` - one list for every snapshot of the process makes the second connection of a traffic log start with the first one's bytes (C10.R8 borrowed)")
+    from .c10 import shared_class_state as _scs19
+    _scs19(ctx.borrowed("R12", "C10"), repo, "R8", only_under="/utils/")
     ctx.rule("R10", "the firmware a snapshot records is the connection's: on both stacks the version step of the handshake, interpreted with a reply of six pairwise distinct numbers, stores '<EN build> v<major>.<minor>' and '<CO build> v<major>.<minor>' - the strings the shell writes and the reader parses back")
     firmware_strings(ctx, repo, "R10")
     ctx.rule("R8", "writer and reader composed by interpretation: three snapshots (all byte values / zeros with extreme versions / bytes that look like list punctuation, with a hyphenated pack name) written by GeckoShell.do_snapshot on a model facade and read back line by line through GeckoSnapshot.parse, in both log formats: bytes, pack type, firmware EN/CO, config and log versions and the name come back exactly")
